@@ -10,6 +10,9 @@ package uu
 //     when dst has spare capacity);
 //   - the decoder never panics and a failure returns no buffer and an error
 //     locating a line inside the input.
+// When the verifier produced a model, its projection onto the inputs is passed
+// in VERIF_MODEL_* and is tried first ("verifier counterexample"); only if it
+// does not fail on the real code does the enumeration run.
 // Bounds: lengths 0..VERIF_UU_MAXLEN (default 200) x 6 fills; 4000 (default)
 // pseudo-random invalid texts seeded by VERIF_SEED.
 
@@ -90,6 +93,90 @@ func verifFills(n int, rnd *rand.Rand) [][]byte {
 	}
 }
 
+
+// verifCheckEncode evaluates AppendEncode's contract on one call.
+func verifCheckEncode(dst, x []byte) (msg string) {
+	defer func() {
+		if r := recover(); nil != r {
+			msg = fmt.Sprintf("AppendEncode panicked on src %x (dst len %d cap %d): %v", x, len(dst), cap(dst), r)
+		}
+	}()
+	keep := bytes.Clone(x)
+	keepDst := bytes.Clone(dst)
+	n := len(x)
+	res := AppendEncode(dst, x)
+	if !bytes.Equal(x, keep) {
+		return fmt.Sprintf("AppendEncode modified its source (len %d, src %x)", n, keep)
+	}
+	if len(res) < len(keepDst) || !bytes.Equal(res[:len(keepDst)], keepDst) {
+		return fmt.Sprintf("AppendEncode modified the existing contents of dst (len %d)", n)
+	}
+	enc := res[len(keepDst):]
+	if len(enc) != verifSpecEncLen(n) {
+		return fmt.Sprintf("encoded length of %d bytes is %d, specification says %d (src %x)", n, len(enc), verifSpecEncLen(n), keep)
+	}
+	for p := range enc {
+		if w := verifSpecEncByte(x, p); enc[p] != w {
+			return fmt.Sprintf("byte %d of the encoding of %x is %q, Perl's pack(\"u\") specification says %q", p, keep, enc[p], w)
+		}
+	}
+	if MaxEncodedLen(x) < len(enc) {
+		return fmt.Sprintf("MaxEncodedLen(%d bytes) = %d under-estimates %d", n, MaxEncodedLen(x), len(enc))
+	}
+	return ""
+}
+
+// verifCheckDecode evaluates AppendDecode's contract on one call (any text).
+func verifCheckDecode(dst, src []byte) (msg string) {
+	keep := bytes.Clone(src)
+	defer func() {
+		if r := recover(); nil != r {
+			msg = fmt.Sprintf("AppendDecode panicked on %q: %v", keep, r)
+		}
+	}()
+	keepDst := bytes.Clone(dst)
+	res, err := AppendDecode(dst, src)
+	if !bytes.Equal(src, keep) {
+		return fmt.Sprintf("AppendDecode modified its source %q -> %q", keep, src)
+	}
+	if nil != err {
+		var de DecodeError
+		if nil != res {
+			return fmt.Sprintf("AppendDecode returned a buffer together with error %v for %q", err, keep)
+		}
+		if !errors.As(err, &de) || de.Line < 0 || de.Line > bytes.Count(keep, []byte{'\n'}) {
+			return fmt.Sprintf("error %v for %q does not locate a line of the input", err, keep)
+		}
+		return ""
+	}
+	if len(res) < len(keepDst) || !bytes.Equal(res[:len(keepDst)], keepDst) {
+		return fmt.Sprintf("AppendDecode modified the existing contents of dst for %q", keep)
+	}
+	if len(res)-len(keepDst) > MaxDecodedLen(keep) {
+		return fmt.Sprintf("MaxDecodedLen(%q) = %d under-estimates %d", keep, MaxDecodedLen(keep), len(res)-len(keepDst))
+	}
+	return ""
+}
+
+// verifModelSlice rebuilds a []byte input from the verifier's model.
+func verifModelSlice(name string) ([]byte, bool) {
+	h, ok := os.LookupEnv("VERIF_MODEL_" + name + "_HEX")
+	if !ok {
+		return nil, false
+	}
+	b, err := hex.DecodeString(h)
+	if nil != err {
+		return nil, false
+	}
+	c, err := strconv.Atoi(os.Getenv("VERIF_MODEL_" + name + "_CAP"))
+	if nil != err || c < len(b) || c > 1<<20 {
+		c = len(b)
+	}
+	s := make([]byte, len(b), c)
+	copy(s, b)
+	return s, true
+}
+
 func TestVerifReplayUUContract(t *testing.T) {
 	seed := int64(1)
 	if s := os.Getenv("VERIF_SEED"); s != "" {
@@ -115,6 +202,32 @@ func TestVerifReplayUUContract(t *testing.T) {
 		t.Fatalf("REPRODUCED: "+format, a...)
 	}
 
+	/* The verifier's counterexample first. */
+	if fn := os.Getenv("VERIF_MODEL_FUNC"); "" != fn {
+		src, okS := verifModelSlice("src")
+		dst, okD := verifModelSlice("dst")
+		if okS {
+			if !okD {
+				dst = nil
+			}
+			var msg string
+			switch fn {
+			case "uu.AppendEncode":
+				msg = verifCheckEncode(dst, src)
+			case "uu.AppendDecode":
+				msg = verifCheckDecode(dst, src)
+			case "uu.MaxEncodedLen":
+				msg = verifCheckEncode(nil, src)
+			case "uu.MaxDecodedLen":
+				msg = verifCheckDecode(nil, src)
+			}
+			if "" != msg {
+				fail("(verifier counterexample src=%x dst len %d cap %d) %s", src, len(dst), cap(dst), msg)
+			}
+			fmt.Printf("VERIF-MODEL the verifier's candidate input src=%x (dst len %d cap %d) does not fail on the real code; enumerating\n", src, len(dst), cap(dst))
+		}
+	}
+
 	var perlIn bytes.Buffer
 	var perlWant [][]byte
 	for n := 0; n <= maxLen; n++ {
@@ -124,26 +237,11 @@ func TestVerifReplayUUContract(t *testing.T) {
 			/* Encoder with a destination that has contents and spare capacity. */
 			dst := make([]byte, 5, 5+verifSpecEncLen(n)+7)
 			copy(dst, "HELLO")
-			res := AppendEncode(dst, x)
-			if !bytes.Equal(x, keep) {
-				fail("AppendEncode modified its source (len %d, src %x)", n, keep)
+			if msg := verifCheckEncode(dst, x); "" != msg {
+				fail("%s", msg)
 			}
-			if string(res[:5]) != "HELLO" {
-				fail("AppendEncode modified the existing contents of dst (len %d)", n)
-			}
-			enc := res[5:]
-			if len(enc) != verifSpecEncLen(n) {
-				fail("encoded length of %d bytes is %d, specification says %d (src %x)", n, len(enc), verifSpecEncLen(n), keep)
-			}
-			for p := range enc {
-				checked++
-				if w := verifSpecEncByte(x, p); enc[p] != w {
-					fail("byte %d of the encoding of %x is %q, Perl's pack(\"u\") specification says %q", p, keep, enc[p], w)
-				}
-			}
-			if MaxEncodedLen(x) < len(enc) {
-				fail("MaxEncodedLen(%d bytes) = %d under-estimates %d", n, MaxEncodedLen(x), len(enc))
-			}
+			enc := AppendEncode(nil, x)
+			checked += len(enc)
 			if n%7 == 0 {
 				fmt.Fprintf(&perlIn, "%s\n", hex.EncodeToString(x))
 				perlWant = append(perlWant, bytes.Clone(enc))
@@ -167,7 +265,6 @@ func TestVerifReplayUUContract(t *testing.T) {
 			}
 		}
 	}
-
 	/* Perl as the external oracle for the specification itself. */
 	perlChecked := 0
 	if _, err := exec.LookPath("perl"); nil == err {
@@ -199,33 +296,11 @@ func TestVerifReplayUUContract(t *testing.T) {
 			src[j] = alphabet[rnd.Intn(len(alphabet))]
 		}
 		cases++
-		keep := bytes.Clone(src)
-		func() {
-			defer func() {
-				if r := recover(); nil != r {
-					fail("AppendDecode panicked on %q: %v", keep, r)
-				}
-			}()
-			dst := make([]byte, 2, 2+n+4)
-			copy(dst, "xy")
-			res, err := AppendDecode(dst, src)
-			if !bytes.Equal(src, keep) {
-				fail("AppendDecode modified its source %q -> %q", keep, src)
-			}
-			if nil != err {
-				var de DecodeError
-				if nil != res {
-					fail("AppendDecode returned a buffer together with error %v for %q", err, keep)
-				}
-				if !errors.As(err, &de) || de.Line < 0 || de.Line > bytes.Count(keep, []byte{'\n'}) {
-					fail("error %v for %q does not locate a line of the input", err, keep)
-				}
-			} else if len(res) < 2 || string(res[:2]) != "xy" {
-				fail("AppendDecode modified the existing contents of dst for %q", keep)
-			} else if len(res)-2 > MaxDecodedLen(keep) {
-				fail("MaxDecodedLen(%q) = %d under-estimates %d", keep, MaxDecodedLen(keep), len(res)-2)
-			}
-		}()
+		dst := make([]byte, 2, 2+n+4)
+		copy(dst, "xy")
+		if msg := verifCheckDecode(dst, src); "" != msg {
+			fail("%s", msg)
+		}
 	}
 	t.Logf("VERIF-BOUNDED cases=%d encoded_bytes_checked=%d perl_compared=%d maxlen=%d invalid=%d seed=%d", cases, checked, perlChecked, maxLen, nInvalid, seed)
 	fmt.Println(strings.TrimSpace(fmt.Sprintf("VERIF-BOUNDED cases=%d encoded_bytes_checked=%d perl_compared=%d maxlen=%d invalid=%d seed=%d", cases, checked, perlChecked, maxLen, nInvalid, seed)))
